@@ -198,7 +198,7 @@ struct Judge {   // the oracle state shared by both driving modes
     double tol() const { return c.cpodes() ? StateTolCPodes : StateTol; }
     // failures are collected here and reported by property() (a TimeStepper-mode case that matches the listed site
     // report-inside-event-window is excluded as a whole, whatever the oracle said)
-    std::string failMsg; bool stoppedKnown = false;
+    std::string failMsg; bool stoppedKnown = false; bool excl = true;
     bool fail(const std::string& m) { if (on && failMsg.empty()) failMsg = std::string(integName(c.integ)) + (c.tsMode ? " [TimeStepper] " : " [direct] ") + m; return false; }
     // Site predicate of known finding report-inside-event-window, TimeStepper mode (windows are not observable): some triggered
     // call at time th (= tHigh) has a scheduled-report time r with th - W < r < th, W the localisation requirement of that witness.
@@ -313,7 +313,7 @@ struct Judge {   // the oracle state shared by both driving modes
                         std::vector<double> restarts(1, c.t0); bool site = false;
                         for (auto& r : S.log.recs) if (r.source <= evsys::PeriodicHandler) { const Action& a = actOf(r); if (a.modifiesContinuous() || a.kind == Action::SetDiscrete) restarts.push_back(r.t); }
                         for (double tr : restarts) if (tr < x.t && x.t - tr <= 0.1) for (auto& w2 : S.wits) if (w2.value(tr) == 0) site = true;
-                        if (site && ctx->known("cpodes-root-missed-after-zero-restart")) { ctx->label("excluded:cpodes-root-missed-after-zero-restart"); continue; }
+                        if (site && excl && ctx->known("cpodes-root-missed-after-zero-restart")) { ctx->label("excluded:cpodes-root-missed-after-zero-restart"); continue; }
                     }
                     return fail("triggered " + std::string(w.reporter ? "reporter " : "handler ") + std::to_string(i) + " {" + w.describe() + "}: crossing at t=" + pbt::str(x.t) + " (" + (x.dir > 0 ? "rising" : "falling") + ") was never handled"
                                 + (gi < got.size() ? "; next recorded call at " + pbt::str(got[gi]) : "") + " (run ended at " + pbt::str(tStop) + ")");
@@ -443,13 +443,17 @@ bool runDirect(const Case& c, Sim& S, Judge& J, pbt::Ctx& ctx, bool on, std::vec
                         if (tr == 0) return J.fail(hd.str() + "witness " + std::to_string(wi) + " {" + w.describe() + "} is listed but its trigger has no sign change in a monitored direction over the window: value " + pbt::str(W(wi, tLow)) + " at tLow, " + pbt::str(W(wi, tHigh)) + " at tHigh");
                         const bool repRising = (trans[j] & Event::Rising) != 0, repFalling = (trans[j] & Event::Falling) != 0;
                         if ((tr > 0) != repRising || (tr < 0) != repFalling) return J.fail(hd.str() + "witness " + std::to_string(wi) + " {" + w.describe() + "}: reported transition " + Event::eventTriggerString(trans[j]) + " does not match the actual " + (tr > 0 ? "rising" : "falling") + " crossing");
-                        if (!(est[j] > tLow && est[j] <= tHigh)) return J.fail(hd.str() + "estimated event time " + pbt::str((double)est[j]) + " outside (tLow,tHigh]");
+                        // (a window only one or two ulps wide has no representable interior point: the midpoint estimate then rounds to tLow;
+                        //  observed with two periodic schedules whose multiples differ by 1 ulp -- accepted as rounding, see notes)
+                        const bool ulpWindow = tLow + (tHigh - tLow) / 2 == tLow;
+                        if (!((est[j] > tLow || (ulpWindow && est[j] == tLow)) && est[j] <= tHigh)) return J.fail(hd.str() + "estimated event time " + pbt::str((double)est[j]) + " outside (tLow,tHigh]");
+                        if (ulpWindow) ctx.label("hit:one-ulp-window");
                         if (j > 0 && est[j] < est[j - 1]) return J.fail(hd.str() + "triggered events not listed in order of estimated occurrence");
                         narrow = std::min(narrow, J.requiredWindow(w, std::max(t1r, tHigh) * (1 + 1e-9)));
                     }
                     if (!(tHigh - tLow <= narrow * (1 + 1e-12))) return J.fail(hd.str() + "window width " + pbt::str(tHigh - tLow) + " exceeds the localisation requirement " + pbt::str(narrow) + " = max(accuracy*timescale*window, MinWindow) of the listed events");
                     { double rIn = modelNext(c, true, tLow, false);
-                      if (rIn > tLow && rIn < tHigh) { ctx.label("hit:report-inside-event-window"); if (!cp && ctx.known("report-inside-event-window")) { ctx.label("excluded:report-inside-event-window"); J.stoppedKnown = true; return true; } } }
+                      if (rIn > tLow && rIn < tHigh) { ctx.label("hit:report-inside-event-window"); if (!cp && J.excl && ctx.known("report-inside-event-window")) { ctx.label("excluded:report-inside-event-window"); J.stoppedKnown = true; return true; } } }
                     if (listed.size() >= 2) ctx.label("hit:simultaneous");
                     // completeness within this (truncated) step, for witnesses whose behaviour over the whole ODE step (aStart, t1] is unambiguous
                     if (!cp) for (size_t i = 0; i < S.wits.size(); ++i) {
@@ -462,6 +466,9 @@ bool runDirect(const Case& c, Sim& S, Judge& J, pbt::Ctx& ctx, bool on, std::vec
                             if (w.kind == Wit::Linear && (evsys::seenTransition(w, tLow, tHigh) != 0) != (listed.count((int)i) != 0)) return J.fail(hd.str() + "monotone witness " + std::to_string(i) + " {" + w.describe() + "} crosses inside the window but is not listed (or vice versa)");
                             continue; }
                         if (cr.size() != 1 || !evsys::monitored(w, cr[0].dir)) continue;       // multi-crossing within one step: the documented exemption
+                        // a step that STARTS on an exact zero of the witness (right after its own event) and contains one more zero is the
+                        // same exemption: an excursion that came and went within the closed step [a0,t1] ("transitions away from zero are not reported")
+                        if (sgn(W(i, aStart)) == 0) { ctx.label("exempt:step-starts-on-zero-of-same-witness"); continue; }
                         const bool inWin = w.kind == Wit::Linear ? evsys::seenTransition(w, tLow, tHigh) != 0 : (cr[0].t > tLow && cr[0].t <= tHigh);
                         const bool before = w.kind == Wit::Linear ? evsys::seenTransition(w, aStart, tLow) != 0 : (cr[0].t <= tLow);
                         if (before) return J.fail(hd.str() + "witness " + std::to_string(i) + " {" + w.describe() + "} has its only crossing of this step at " + pbt::str(cr[0].t) + " <= tLow: an earlier persisting crossing was skipped (events not in time order)");
@@ -583,7 +590,7 @@ void describe(const Case& c, const std::vector<Wit>& wits, pbt::Ctx& ctx) {
     ctx.desc << "requests (chunk ends): "; for (double x : c.reports) ctx.desc << pbt::str(x) << " "; ctx.desc << "\n";
 }
 
-void judgeCase(const Case& c, pbt::Ctx& ctx);
+void judgeCase(const Case& c, pbt::Ctx& ctx, bool excl = true);
 void property(const pbt::Tape& t, pbt::Ctx& ctx) {
     Case c = decode(t, ctx.isKnownListed("cpodes-exact-zero-ignores-direction"), ctx.isKnownListed("cpodes-event-window-passes-request"));
     for (int i = 0; i < c.exclZeroDir; ++i) if (ctx.known("cpodes-exact-zero-ignores-direction")) ctx.label("excluded:cpodes-exact-zero-ignores-direction");
@@ -596,7 +603,8 @@ void property(const pbt::Tape& t, pbt::Ctx& ctx) {
     judgeCase(c, ctx);
 }
 
-void judgeCase(const Case& c, pbt::Ctx& ctx) {
+// excl = false (directed reproducers): the site exclusions of listed findings are NOT applied
+void judgeCase(const Case& c, pbt::Ctx& ctx, bool excl) {
     std::vector<Wit> wits = c.wits;
     // crossings placed exactly on internal step ends: learn the step ends from a dry run of the same case (deterministic)
     bool needDry = false; for (int se : c.witStepEnd) if (se >= 0) needDry = true;
@@ -611,7 +619,7 @@ void judgeCase(const Case& c, pbt::Ctx& ctx) {
     for (auto& w : wits) { ctx.label(w.reporter ? "src:triggered-reporter" : "src:triggered-handler"); ctx.label(w.kind == Wit::Linear ? "wit:linear" : "wit:sine"); ctx.label("wit:stage" + std::to_string(w.stage)); }
     for (auto& s : c.scheds) { static const char* kn[] = {"src:list-handler", "src:periodic-handler", "src:list-reporter", "src:periodic-reporter"}; ctx.label(kn[s.kind]); }
 
-    Sim S(c, wits); Judge J(&ctx, c, S, true); double tEnd = c.t0; bool ok;
+    Sim S(c, wits); Judge J(&ctx, c, S, true); J.excl = excl; double tEnd = c.t0; bool ok;
     if (c.tsMode) ok = runTimeStepper(c, S, J, ctx, tEnd);
     else ok = runDirect(c, S, J, ctx, true, nullptr, tEnd);
     if (ctx.isRejected) return;
@@ -620,7 +628,7 @@ void judgeCase(const Case& c, pbt::Ctx& ctx) {
     // TimeStepper then either delivers that report AFTER the handler ran at tHigh (from a state interpolated across the
     // handler's change) or, if the handler modified the state, skips it. Direct mode: dynamic site (window observed, history
     // stops being judged there); TimeStepper mode: predicate over the call log and the report schedule.
-    if (c.tsMode && c.interp && !c.cpodes() && J.reportInsideSomeWindow() && ctx.known("report-inside-event-window")) { ctx.label("excluded:report-inside-event-window"); return; }
+    if (excl && c.tsMode && c.interp && !c.cpodes() && J.reportInsideSomeWindow() && ctx.known("report-inside-event-window")) { ctx.label("excluded:report-inside-event-window"); return; }
     if (J.stoppedKnown) return;
     if (ok && J.failMsg.empty() && !J.terminated && tEnd != c.T) J.fail("run ended at t=" + pbt::str(tEnd) + " instead of the requested final time " + pbt::str(c.T));
     if (ok && J.failMsg.empty()) J.judgeLog(tEnd);
@@ -648,7 +656,7 @@ void addWit(Case& c, int kind, double cc, double omega, bool rising, bool fallin
 
 pbt::Config config() {
     pbt::Config c; c.prop = "C22"; c.K = 16; c.minUnits = 2; c.caseTimeoutSecs = 60;
-    c.quick = {1500, 6000, 14, 25}; c.thorough = {8000, 60000, 16, 240};
+    c.quick = {1000, 6000, 14, 25}; c.thorough = {6000, 40000, 16, 150};
     c.rule = "rapidcheck tape -> mode {direct Integrator::stepTo loop with return-every-step, TimeStepper (report-all on/off)} x integrator (RK Merson, RK3, RK2, RK Feldberg, Verlet, ExplicitEuler, SemiExplicitEuler, SemiExplicitEuler2, CPodes BDF/Adams) x options {accuracy 1e-2..1e-7 or default, interpolation on/off, final time, inf norm, max/fixed step 2e-3..0.2, time scale 0.01/0.1/1, t0 0..3, T 0.3..2.5} x analytic system (complex pair + real mode + oscillator) x up to 6 time-only witnesses s(t-c)/sin(om(t-c)) (masks both/rising/falling/none, windows 1e-4..1, declared stages Time..Acceleration, handler or reporter, crossing placed random / coincident with another time / on a step end learned by a dry run / at t0 / at T) x up to 4 scheduled-list or periodic handlers/reporters x up to 5 extra report times; handler actions none/scale z/kick u/set q/set discrete/terminate. Non-trivial: >= 2 triggered calls from witnesses with different masks/kinds, or a triggered call in a case with a crossing placed on another time/step end/final time, or a state-modifying handler invoked.";
     c.assumptions = {"witnesses are functions of time only, so their sign at any time the integrator reports is known exactly (same floating-point expression on both sides)",
                      "completeness is demanded on observed step boundaries: a trigger that comes and goes within one internal step may be missed (documented in takeOneStep)",
@@ -657,26 +665,26 @@ pbt::Config config() {
                      "returned states are compared with the closed-form solution only for error-controlled order>=2 methods at accuracy <= 1e-4 without forced step size"};
     // ---- directed reproducers of the CPodes findings (each must FAIL while the defect exists)
     c.directed.push_back({"cpodes-mask-none-fires", "cpodes-mask-none-fires-rising", [](pbt::Ctx& ctx) {
-        Case k = baseCase(8, true, 1.0); addWit(k, Wit::Linear, 0.5, 1, false, false); judgeCase(k, ctx); }});
+        Case k = baseCase(8, true, 1.0); addWit(k, Wit::Linear, 0.5, 1, false, false); judgeCase(k, ctx, false); }});
     c.directed.push_back({"cpodes-falling-only-fires-on-rising-zero-at-step-end", "cpodes-exact-zero-ignores-direction", [](pbt::Ctx& ctx) {
         // t - c with c exactly the end of the first internal step (found by a dry run), monitored for FALLING transitions only
-        Case k = baseCase(8, true, 0.3); addWit(k, Wit::Linear, 0, 1, false, true, 0, "step-end"); judgeCase(k, ctx); }});
+        Case k = baseCase(8, true, 0.3); addWit(k, Wit::Linear, 0, 1, false, true, 0, "step-end"); judgeCase(k, ctx, false); }});
     c.directed.push_back({"cpodes-event-window-beyond-request", "cpodes-event-window-passes-request", [](pbt::Ctx& ctx) {
         // sin(2(t-0.3)) crosses exactly at the requested time 0.3
         Case k = baseCase(8, false, 0.3); k.spec.blocks[0].a = 0; k.spec.blocks[0].w = 0.5; k.spec.blocks[1].a = 0; k.spec.oscs[0].omega = 0.5; k.spec.z0[0] = 1.875; k.spec.u0[0] = -0.5;
-        addWit(k, Wit::Sine, 0.3, 2, true, true, -1, "final-time"); judgeCase(k, ctx); }});
+        addWit(k, Wit::Sine, 0.3, 2, true, true, -1, "final-time"); judgeCase(k, ctx, false); }});
     c.directed.push_back({"scheduled-report-on-a-crossing-inside-window", "report-inside-event-window", [](pbt::Ctx& ctx) {
         // t - c with c = 0.10277000020723791 = the first multiple of a periodic reporter; a second periodic reporter (0.04) makes the
         // integrator step towards an EARLIER report when it localises the event, so the report at c ends up inside the window
         Case k = baseCase(0, true, 1.0); addWit(k, Wit::Linear, 0.10277000020723791, 1, true, true, -1, "coincident"); k.witAct[0].kind = Action::KickU; k.witAct[0].value = 1.0;
         Sched a; a.kind = 3; a.interval = 0.10277000020723791; k.scheds.push_back(a); Sched b; b.kind = 3; b.interval = 0.040000000031676128; k.scheds.push_back(b);
-        judgeCase(k, ctx); }});
+        judgeCase(k, ctx, false); }});
     c.directed.push_back({"cpodes-second-crossing-right-after-restart-missed", "cpodes-root-missed-after-zero-restart", [](pbt::Ctx& ctx) {
         // handler of t - 0.17700780777368644 kicks u (restart exactly on that witness's zero); t - 0.17759421555992452 crosses 5.9e-4 later
         Case k = baseCase(8, true, 1.5707963267948966); k.spec.blocks[0].a = 0; k.spec.blocks[0].w = 2.4910801318474114; k.spec.blocks[1].a = -2.1398441232740879; k.spec.oscs[0].omega = 2.596864640712738; k.spec.z0 = {1, 0, 0.75}; k.spec.u0[0] = 1;
         addWit(k, Wit::Linear, 0.17700780777368644, 1, true, true); k.witAct[0].kind = Action::KickU; k.witAct[0].value = -1.49078;
         addWit(k, Wit::Linear, 0.17759421555992452, 1, true, true); k.wits[1].reporter = true; k.wits[1].window = 0.01;
-        judgeCase(k, ctx); }});
+        judgeCase(k, ctx, false); }});
     c.requiredLabels = {"mode:direct", "mode:timestepper", "hit:trigger", "hit:simultaneous", "hit:window-ends-on-exact-zero", "hit:zero-at-step-end", "hit:trigger-placed-coincident", "hit:trigger-placed-step-end",
                         "src:triggered-reporter", "src:periodic-handler", "src:periodic-reporter", "src:list-handler", "src:list-reporter", "action:scaleZ", "action:kickU", "action:setQ", "action:setDiscrete", "hit:terminated-by-handler",
                         "integ:RungeKuttaMerson", "integ:RungeKutta3", "integ:RungeKutta2", "integ:RungeKuttaFeldberg", "integ:Verlet", "integ:ExplicitEuler", "integ:SemiExplicitEuler", "integ:SemiExplicitEuler2", "integ:CPodesBDF", "integ:CPodesAdams"};
